@@ -18,3 +18,5 @@ def check(rep, tier):
     from contracts import diffops
     rep.run(diffops.run_ops, rep, tier)      # the operators hand values / aux outputs back as the plain objects the function computed
     rep.run(value_transparency.run_outputs, rep, tier)
+    from contracts import rules_numeric as _rn6
+    rep.run(_rn6.run_args_unmodified, rep)      # user-supplied inputs are left unmodified
